@@ -139,7 +139,14 @@ def tracker_operator(run, prog, cls, rule, prefix):
         _, mfn = prog.find_method(mv, "__init__")
         bp = ("param", [a.arg for a in mfn.args.args][1])
         mv_copies = any(v[0] == "new" and v[2] == "deepcopy" and v[3] == (bp,) for v in mi.fields.values())
-    bases = set()
+    bases = {}
+    fresh_seen = {}
+    tracker_quals = {c.qual for c in prog.all_classes() if c.name.endswith("Tracker")}
+
+    def fresh(t):
+        """t is, on every arm, a tracker constructed right here (not an object that existed before)."""
+        leaves = strip_gates(t)
+        return bool(leaves) and all(x[0] == "new" and x[2] in tracker_quals for x in leaves)
     for f in trackers:
         t = s.fields.get(f)
         inner, via_mv = t, False
@@ -148,21 +155,27 @@ def tracker_operator(run, prog, cls, rule, prefix):
             inner = pos[0] if pos else kw.get("base_tracker")
             via_mv = True
         if inner is not None and inner[0] == "new" and inner[2] == "deepcopy" and inner[3]:
-            bases.add(inner[3][0])
+            bases.setdefault(ir.strip_sites(inner[3][0]), inner[3][0])
             continue
         if via_mv and inner is not None and mv_copies:
-            bases.add(inner)            # MultiValueTracker deep-copies its base tracker itself
+            bases.setdefault(ir.strip_sites(inner), inner)     # MultiValueTracker deep-copies its base tracker itself
+            continue
+        if inner is not None and fresh(inner) and inner not in fresh_seen:
+            # a tracker built on the spot (its creation site differs from every other field's) is as
+            # independent as a deep copy
+            fresh_seen[inner] = f
+            bases.setdefault(ir.strip_sites(inner), inner)
             continue
         run.fail(rule, f"{prefix}.copy.{f}", f"{s.path}:{s.fn.lineno}", fq, f"self.{f} = {ir.show_nl(t)[:100]}",
                  f"every estimate tracker must be an independent deep copy of the one base tracker; self.{f} is "
                  f"{ir.show_nl(t)[:160]} (a shared object would be updated through several fields)")
     if len(bases) > 1:
         run.fail(rule, f"{prefix}.same-base", f"{s.path}:{s.fn.lineno}", fq, "different base trackers",
-                 "the trackers are not copies of one base tracker: " + " | ".join(ir.show_nl(b)[:80] for b in bases))
+                 "the trackers are not copies of one base tracker: " + " | ".join(ir.show_nl(b)[:80] for b in bases.values()))
         return
     if not bases:
         return
-    base = next(iter(bases))
+    base = next(iter(bases.values()))
     dyn = ("param", "dynamic_setting")
     sa = ("param", "smoothing_alpha")
     es = prog.find_class("ExponentialSmoothingTracker")
@@ -283,6 +296,9 @@ def meanout_ok(run, prog, rule, inst):
     try:
         s = prog.summarise_func(MEANOUT)
     except ir.Unsupported:
+        # the helper is not kept under that name: wherever it is called it is inlined, and each call
+        # site is required to have the mean-output form (meanout_arg)
+        run.ok(rule, inst, "no separate mean-output helper under the shipped name: the form is decided at every use site")
         return True
     run.analysed_fn("_get_mean_model_output")
     _, fn = prog.func(MEANOUT)
